@@ -9,7 +9,6 @@ import (
 	"strings"
 	"sync"
 	"time"
-	"unicode/utf8"
 
 	"github.com/cube2222/octosql/octosql"
 
@@ -194,7 +193,6 @@ func runCLICase(c *core.Ctx, runner *cli.Runner, cs cliCase) *Result {
 	var content []byte
 	var table string
 	var judge func(rows []cli.JSONRow, replay map[string]interface{})
-	lineSep := ""
 	colTypes := map[string]octosql.Type{} // JSON legs: column types as --describe prints them
 	name := "t." + cs.Kind
 	if cs.Stdin {
@@ -282,8 +280,12 @@ func runCLICase(c *core.Ctx, runner *cli.Runner, cs cliCase) *Result {
 		}
 		sort.Strings(names)
 		sepName := names[rng.Intn(len(names))]
-		if sepName == "crlf" {
-			sepName = "semi2" // a raw CR LF inside a backquoted SQL identifier is not a fair CLI input
+		if sepName == "crlf" || lineSeps[sepName][0] >= 0x80 {
+			// CLI legs keep the output formatter transparent: a raw CR LF inside a backquoted SQL
+			// identifier is not a fair input, and with a non-ASCII separator the anticipated
+			// advance-by-1 defect hands out lone UTF-8 continuation bytes, which -o json cannot
+			// carry (those separators are covered in-process)
+			sepName = "semi2"
 		}
 		if rng.Intn(2) == 0 {
 			sepName = "nl"
@@ -294,7 +296,6 @@ func runCLICase(c *core.Ctx, runner *cli.Runner, cs cliCase) *Result {
 		if sep != "\n" {
 			table = name + "?sep=" + sep
 		}
-		lineSep = sep
 		judge = func(rows []cli.JSONRow, replay map[string]interface{}) {
 			replay["sep"] = sep
 			r.count(leg+"/lines/sep="+sepName, 1)
@@ -340,9 +341,6 @@ func runCLICase(c *core.Ctx, runner *cli.Runner, cs cliCase) *Result {
 	sql := "SELECT * FROM `" + table + "`"
 	run := cli.Run{Args: []string{sql, "-o", "json"}, Timeout: 90 * time.Second}
 	replay := map[string]interface{}{"id": cs.ID, "kind": cs.Kind, "sql": sql, "rows": cs.N, "bytes": len(content), "file": inlineContent(content), "rerun": "./check C23 <tier> --only " + cs.ID}
-	if lineSep != "" {
-		replay["sep_bytes"] = lineSep
-	}
 	if cs.Stdin {
 		plan := planChunks(rng, content)
 		run.StdinChunks = plan.Chunks
@@ -403,12 +401,6 @@ func runCLICase(c *core.Ctx, runner *cli.Runner, cs cliCase) *Result {
 	}
 	rows, err := cli.DecodeJSONLines(res.Stdout)
 	if err != nil {
-		if sep, ok := replay["sep_bytes"].(string); ok && len(sep) > 1 && sep[1] >= 0x80 && !utf8.Valid(res.Stdout) {
-			// predicate: separator whose second byte is a UTF-8 continuation byte; symptom: the
-			// output carries that stray byte (invalid UTF-8), i.e. a line began inside the separator
-			r.viol("lines-sep-advance-1", "lines are split one byte after the start of the separator, so texts start with the separator's tail (here a lone UTF-8 continuation byte, which also makes the JSON output undecodable): "+err.Error(), replay)
-			return r
-		}
 		r.viol("cli:invalid-json-output", "output of -o json does not decode: "+err.Error(), replay)
 		return r
 	}
